@@ -90,6 +90,17 @@ def op_case(ctx, LP, rng):
         # same parity for most sums
         par = A[1] % 2
         B = (B[0], B[1] + ((par - B[1]) % 2), B[2], B[3] + ((par - B[3]) % 2))
+    if op in ("add", "sub", "mul") and A[0] and A[2] and rng.random() < 0.12:
+        # nearly cancelling operands (values, not shapes): B = -+A (sum / difference) or B = ~A (product, whose X part then
+        # cancels) up to relative perturbations 1e-9 .. 1e-4 of single coefficients
+        def jig(cs):
+            return [float(c * (1 + float(rng.choice([-1, 1])) * 10.0 ** float(rng.uniform(-9, -4)) * (rng.random() < 0.7))) for c in cs]
+        if op == "mul":
+            B = (jig(A[0][::-1]), -(2 * len(A[0]) + A[1] - 2), jig([-c for c in A[2]]), A[3])
+        else:
+            sgn = -1.0 if op == "add" else 1.0
+            B = (jig([sgn * c for c in A[0]]), A[1], jig([sgn * c for c in A[2]]), A[3])
+        ctx.count("near-cancellation:" + op)
     pc, pd, _ = gens.lp_spec(rng, maxlen=8, zero_prob=0.15)
     pd = int(rng.integers(-9, 10))
     a, b = mk_la(LP, A), mk_la(LP, B)
